@@ -195,7 +195,11 @@ pub fn impl_(ctx: &Context, input: &DeriveInput) -> TokenStream {
         })
     }
 
-    fn collect_fields<'a, F: Fn(usize, &'a Field) -> TokenStream>(fields: &'a Fields, get_item: F) -> TokenStream {
+    fn collect_fields<'a, F: Fn(usize, &'a Field) -> TokenStream>(
+        fields: &'a Fields,
+        get_item: F,
+        after_check: TokenStream,
+    ) -> TokenStream {
         let iter = fields.iter();
         let len = iter.len();
         let mut items = if len > 0 {
@@ -203,9 +207,10 @@ pub fn impl_(ctx: &Context, input: &DeriveInput) -> TokenStream {
             quote! {
                 let iter = iter::BytesMutIter::new(__flatty_bytes, iter::type_list!(#type_list))
                     .map_err(|e| e.offset(__flatty_offset))?;
+                #after_check
             }
         } else {
-            quote! {}
+            after_check
         };
         for (i, f) in fields.iter().enumerate() {
             let item = get_item(i, f);
@@ -237,10 +242,14 @@ pub fn impl_(ctx: &Context, input: &DeriveInput) -> TokenStream {
 
     let body = match &input.data {
         Data::Struct(data) => {
-            let body = collect_fields(&data.fields, |i, f| {
-                let item = field_postfix(i, f);
-                quote! { self.#item }
-            });
+            let body = collect_fields(
+                &data.fields,
+                |i, f| {
+                    let item = field_postfix(i, f);
+                    quote! { self.#item }
+                },
+                quote! {},
+            );
             quote! {
                 let __flatty_offset = 0;
                 #body
@@ -260,9 +269,9 @@ pub fn impl_(ctx: &Context, input: &DeriveInput) -> TokenStream {
                     }
                 };
                 let set_tag = quote! {
-                    #tag_ident::#ident.emplace_unchecked(__flatty_bytes)?;
+                    #tag_ident::#ident.emplace_unchecked(__flatty_tag_bytes)?;
                 };
-                let body = collect_fields(&var.fields, get_item);
+                let body = collect_fields(&var.fields, get_item, set_tag);
                 let pat_body = var
                     .fields
                     .iter()
@@ -277,9 +286,8 @@ pub fn impl_(ctx: &Context, input: &DeriveInput) -> TokenStream {
                 quote! {
                     #accum
                     #init_ident::#ident #pat => {
-                        #set_tag
                         let __flatty_offset = <#self_ident<#self_args>>::DATA_OFFSET;
-                        let __flatty_bytes = __flatty_bytes.get_unchecked_mut(__flatty_offset..);
+                        let (__flatty_tag_bytes, __flatty_bytes) = __flatty_bytes.split_at_mut(__flatty_offset);
                         #body
                     }
                 }
